@@ -191,6 +191,9 @@ def _check_time(cls_name, dtv):
 
 def run_case(case):
     k = case["kind"]
+    if k == "mid-call":
+        from .. import midcall
+        return midcall.run_case(case)
     if k == "bits":
         return check_bits(case["cls"], case["w"], case["i"], case["op"])
     if k == "addr":
@@ -260,7 +263,11 @@ def main(ctx):
     common.hyp_collect(cases, body, 4000 if ctx.quick else 300000, ctx.seed)
     for path, rec in common.load_replays(PID):
         col.record(rec["case"], run_case(rec["case"]), nontrivial=True, classes=["replay"])
-    ctx.required_classes = ["bits", "addr", "time", "bit-out-of-range", "ipv6", "ipv4", "time-under-non-default-tz", "bits-history"]
+    from .. import midcall
+    nitems = 18          # len(midcall.items("c20"))
+    midcall.sweep(col, "c20", "a typed AVP carries the encoding of its own value - whatever another thread is encoding at the same time",
+                  ks=[3, 4, 7] if ctx.quick else list(range(1, nitems)), nmax=150)
+    ctx.required_classes = ["mid-call-parked", "bits", "addr", "time", "bit-out-of-range", "ipv6", "ipv4", "time-under-non-default-tz", "bits-history"]
     ctx.assumptions = ["bit indices are ints; address literals without scope ids; naive datetimes"]
     ctx.shrinker = lambda sig, case: common.hyp_shrink(cases, lambda c: any(v.sig == sig for v in run_case(c)), ctx.seed, n=3000, budget_s=30) or case
     return col
